@@ -555,13 +555,16 @@ func (ega *EnhancedGroupAggregator) AddPostAggregationExpression(outputField, or
 			if isInputExpression && !containsAggCall(field.InputField) {
 
 				bridge := functions.GetExprBridge()
+				// the evaluator outlives this iteration; with the module's go 1.18
+				// loop semantics `field` is shared by all iterations, so capture a copy
+				inputField := field.InputField
 				ega.GroupAggregator.RegisterExpression(
 					field.Placeholder,
 					field.InputField,
 					[]string{}, // Will be populated by expression parsing
 					func(data any) (any, error) {
 						if dataMap, ok := data.(map[string]any); ok {
-							result, err := bridge.EvaluateExpression(field.InputField, dataMap)
+							result, err := bridge.EvaluateExpression(inputField, dataMap)
 
 							return result, err
 						}
